@@ -205,3 +205,38 @@ pub fn glued_line_comments(input: &str, output: &str) -> (Vec<String>, String) {
 pub fn squeeze_parens(s: &str) -> String {
     s.chars().filter(|c| !c.is_whitespace()).collect()
 }
+
+
+/// the source without its comments (independent scan)
+pub fn strip_comments(source: &str) -> String {
+    let raw = raw_stream(source);
+    let mut out = String::new();
+    let mut depth = 0usize;
+    let mut pos = 0usize;
+    for (k, class) in raw.classes.iter().enumerate() {
+        let (s, e) = raw.spans[k];
+        match class {
+            | Raw::Open => {
+                if depth == 0 {
+                    out.push_str(&source[pos..s]);
+                }
+                depth += 1;
+            }
+            | Raw::Close if depth > 0 => {
+                depth -= 1;
+                if depth == 0 {
+                    pos = e;
+                }
+            }
+            | Raw::CommentLine | Raw::TextLine if depth == 0 => {
+                out.push_str(&source[pos..s]);
+                pos = e;
+            }
+            | _ => {}
+        }
+    }
+    if depth == 0 {
+        out.push_str(&source[pos..]);
+    }
+    out
+}
